@@ -236,8 +236,8 @@ func c26Run(x *explore.Ctx) {
 	maxLen := 3
 	if x.Thorough() {
 		maxLen = 4
-	} else if x.Case%len(c26Schemas) >= 4 {
-		maxLen = 2 // quick tier: the last two schemas with shorter files
+	} else if x.Case%len(c26Schemas) >= 3 {
+		maxLen = 2 // quick tier: the last three schemas with shorter files
 	}
 	seq := []int{x.Case / len(c26Schemas)}
 	for len(seq) < maxLen {
@@ -389,7 +389,7 @@ func c26ListIfaces(db string) []string {
 func init() {
 	register("C26", &explore.Scenario{
 		ID: "C26", Name: "CSV import vs reference importer, destination read back through the query engine", Level: "exploration",
-		Rule:     "case = 6 schemas (header in file / --schema; with, without, with-and-overridden iface column; time first, last, between key columns; unknown extra column; counters first) x first row; execution = every row sequence of length <= 3 (quick, last two schemas: 2; thorough: 4) over a 16-row alphabet (v4, v6, same key again v4/v6, same key other iface, same key later, next day, earlier, too few fields, bad IP, mixed-family IPs, bad counter, bad port, empty iface, path-like iface, timestamp 0; malformed rows carry the timestamp of the last well-formed row) x max-rows (0 = all; every m < length, on the one representative file whose unread rows are the first alphabet element); real csvimport.Import into a fresh directory, Summary compared with a reference importer, destination queried with the real engine (sip,dip,dport,proto,time over all interfaces) and compared with the accepted rows summed per (iface, time, key); non-trivial = imports that stored at least one row or were rejected for a time regression, distinct by (schema, row sequence)",
+		Rule:     "case = 6 schemas (header in file / --schema; with, without, with-and-overridden iface column; time first, last, between key columns; unknown extra column; counters first) x first row; execution = every row sequence of length <= 3 (quick, last three schemas: 2; thorough: 4) over a 16-row alphabet (v4, v6, same key again v4/v6, same key other iface, same key later, next day, earlier, too few fields, bad IP, mixed-family IPs, bad counter, bad port, empty iface, path-like iface, timestamp 0; malformed rows carry the timestamp of the last well-formed row) x max-rows (0 = all; every m < length, on the one representative file whose unread rows are the first alphabet element); real csvimport.Import into a fresh directory, Summary compared with a reference importer, destination queried with the real engine (sip,dip,dport,proto,time over all interfaces) and compared with the accepted rows summed per (iface, time, key); non-trivial = imports that stored at least one row or were rejected for a time regression, distinct by (schema, row sequence)",
 		Cases:    func(string) int { return len(c26Schemas) * len(c26Rows) },
 		Bound:    func(string) int { return 0 },
 		Run:      c26Run,
